@@ -78,7 +78,7 @@ func c19PrepareIDFile(dataDir, scratch, state string, rng *kit.RNG) (string, err
 func TestVerifC19Collector(t *testing.T) {
 	rep := kit.NewReport("C19", "collector")
 	defer rep.Write()
-	rep.SetRule("real telemetry.Collector with http.DefaultTransport replaced by a recorder; seeded cases: Enabled=false with an interval from every class (1..5 ms, 0, negative, the 24 h default, huge) (Start, Stop) => zero requests when Stop() has returned; every third enabled case finds <data dir>/.instance_id in an unusual state (directory, non-empty directory, symlink into a missing directory, symlink loop, empty file, id file of an earlier run with / without trailing newline): New may refuse (the collector stays off) — if it returns a collector, that one is run and judged like any other and an id of an earlier run must be the one reported; Enabled=true with an interval of 1..5 ms => wait for N reports, Stop(), judge every report (whitelisted JSON keys, documented endpoint, no unknown header, no needle from the data-directory path; recorder answering 200 / 500 / network error); instance id: version-4 UUID on a fresh directory, stable across collectors on the same directory, different across directories.  non-trivial = collector ran Start..Stop (enabled: >= N reports judged); distinct = enabled x interval x recorder answer x case number")
+	rep.SetRule("real telemetry.Collector with http.DefaultTransport replaced by a recorder; seeded cases: Enabled=false with an interval from every class (1..5 ms, 0, negative, the 24 h default, huge) (Start, Stop) => zero requests when Stop() has returned; every third enabled case finds <data dir>/.instance_id in an unusual state (directory, non-empty directory, symlink into a missing directory, symlink loop, empty file, id file of an earlier run with / without trailing newline): New may refuse (the collector stays off) — if it returns a collector, that one is run and judged like any other and an id of an earlier run must be the one reported; Enabled=true with an interval of 1..5 ms => wait for N reports, Stop(), judge every report (whitelisted JSON keys, documented endpoint, no unknown header, no needle from the data-directory path; recorder answering 200 / 500 / network error); instance id: version-4 UUID on a fresh directory, stable across collectors on the same directory, different across directories; after every enabled case a collector with Enabled=false is started and stopped on the directory the enabled one has just used => zero requests.  non-trivial = collector ran Start..Stop (enabled: >= N reports judged); distinct = enabled x interval x recorder answer x case number")
 	// facts of the environment the collectors run in are needles of every
 	// judged report (kit/c19host.go), and so are the values of identity /
 	// secret carrying environment variables planted here
@@ -109,6 +109,7 @@ func TestVerifC19Collector(t *testing.T) {
 	rng := kit.NewRNG(kit.Mix(kit.Seed(), 0xC19C))
 	ncases := kit.Scale(120, 4000)
 	ids := map[string]int{}
+	freshDisabledSent := false // a disabled collector on a fresh directory made a request
 	for i := 0; i < ncases; i++ {
 		rep.Eval()
 		enabled := i%4 != 0
@@ -183,6 +184,7 @@ func TestVerifC19Collector(t *testing.T) {
 		if !enabled {
 			if len(reqs) > 0 {
 				replay["requests"] = reqs
+				freshDisabledSent = true
 				fp := "C19:telemetry-sent-while-disabled:collector"
 				if ivClass == "zero" || ivClass == "negative" {
 					fp += ":interval-" + ivClass
@@ -231,7 +233,24 @@ func TestVerifC19Collector(t *testing.T) {
 				if c2.GetInstanceID() != id {
 					rep.Violation("C19:instance-id-not-persistent", fmt.Sprintf("second collector on the same directory reports %q, first %q", c2.GetInstanceID(), id), replay)
 				}
+				// the operator opts out after a run with telemetry on: a disabled
+				// collector on the directory the enabled one has just used (its
+				// instance id and whatever else it left are there) stays silent
+				rec.Take()
+				c2.Start()
 				c2.Stop()
+				if late := rec.Take(); len(late) > 0 {
+					replay["requests_of_the_disabled_collector"] = late
+					// the history of the directory is named only while disabled
+					// collectors on fresh directories have stayed silent in this run
+					fp := "C19:telemetry-sent-while-disabled:collector"
+					if !freshDisabledSent {
+						fp += ":data-dir-of-enabled-run"
+					}
+					rep.Violation(fp, fmt.Sprintf("a collector with Enabled=false made %d request(s) on a data directory an enabled collector had used before (first: %s %s)", len(late), late[0].Method, late[0].URL), replay)
+				} else {
+					rep.Count("disabled_collectors_silent_after_enabled_run", 1)
+				}
 			}
 		}
 		os.RemoveAll(dir)
